@@ -12,13 +12,113 @@
 //!  <op>   ::= new | compress | decompress | (setc xHEX) | (setp xHEX)
 //!  <edit> ::= (set (id gen) <obj>) | (add <obj>) | (clone (id gen)) | (sop (id gen) <op>...)
 //!
-//! Output: (saved (rev xFILE <document before the save> <trailer after the save>) ...)  one (rev ..)
-//! per produced file, each file being the complete output of its save; or (save-error k <class>).
+//! Output: (saved (rev xFILE <document before the save> <trailer after the save> (sinks <sink>...)) ...)
+//! one (rev ..) per produced file, each file being the complete output of its save; or (save-error k <class>).
+//! Every save is REPEATED, on a clone of the document as it was before the save, into sinks that accept fewer
+//! bytes than offered (`io::Write::write` returning a short count, or `Interrupted`): 7 bytes per call, 1 byte
+//! per call, Interrupted on every 4th call, a pipe-like sink (a 64-byte buffer that accepts what is free and is
+//! drained when full), ragged (pseudo-random short counts mixed with Interrupted).  A healthy sink of any of
+//! these kinds must receive exactly the bytes a Vec receives:
+//!  <sink> ::= (same NAME)                the bytes delivered are identical to xFILE
+//!           | (sinkdiff NAME xBYTES)     they differ: props/c03.py runs the strict reader on THESE bytes too
+//!           | (sinkerr NAME <class>)     save_to answered an error although the sink never fails
 //! Verdict here is only `ok` / `skip`; the property verdict is computed from the strict reader.
 use lopdf::xref::XrefType;
 use lopdf::{Document, IncrementalDocument, Object, ObjectId, Stream};
 use lvh::conv::*;
 use lvh::sx::Sx;
+use std::io::{self, Write};
+
+// ---------- sinks that accept fewer bytes than offered (never fail for good) ----------
+#[derive(Clone, Copy)]
+enum SinkKind {
+    Chunk(usize),
+    Interrupt4,
+    Pipe(usize),
+    Ragged,
+}
+
+struct ShortSink {
+    kind: SinkKind,
+    out: Vec<u8>,
+    calls: usize,
+    fill: usize,
+    state: u32,
+}
+
+impl ShortSink {
+    fn new(kind: SinkKind) -> ShortSink {
+        ShortSink { kind, out: Vec::new(), calls: 0, fill: 0, state: 0x2545_f491 }
+    }
+    fn take(&mut self, buf: &[u8], n: usize) -> io::Result<usize> {
+        let n = n.min(buf.len());
+        self.out.extend_from_slice(&buf[..n]);
+        Ok(n)
+    }
+}
+
+impl Write for ShortSink {
+    // only `write` and `flush`: write_all / write_fmt are the std defaults, as for a caller's own sink
+    fn write(&mut self, buf: &[u8]) -> io::Result<usize> {
+        self.calls += 1;
+        if buf.is_empty() {
+            return Ok(0);
+        }
+        match self.kind {
+            SinkKind::Chunk(k) => self.take(buf, k),
+            SinkKind::Interrupt4 => {
+                if self.calls % 4 == 0 {
+                    Err(io::Error::new(io::ErrorKind::Interrupted, "interrupted"))
+                } else {
+                    self.take(buf, buf.len())
+                }
+            }
+            SinkKind::Pipe(cap) => {
+                // a pipe whose reader empties the buffer whenever it is full: accepts what is free
+                if self.fill == cap {
+                    self.fill = 0;
+                }
+                let n = buf.len().min(cap - self.fill);
+                self.fill += n;
+                self.take(buf, n)
+            }
+            SinkKind::Ragged => {
+                self.state = self.state.wrapping_mul(1664525).wrapping_add(1013904223);
+                let r = (self.state >> 16) as usize;
+                if r % 5 == 0 {
+                    Err(io::Error::new(io::ErrorKind::Interrupted, "interrupted"))
+                } else {
+                    self.take(buf, 1 + r % 23)
+                }
+            }
+        }
+    }
+    fn flush(&mut self) -> io::Result<()> {
+        Ok(())
+    }
+}
+
+const SINKS: [(&str, SinkKind); 5] = [
+    ("chunk7", SinkKind::Chunk(7)),
+    ("chunk1", SinkKind::Chunk(1)),
+    ("interrupt4", SinkKind::Interrupt4),
+    ("pipe64", SinkKind::Pipe(64)),
+    ("ragged", SinkKind::Ragged),
+];
+
+/// the same save (`save` gets a fresh clone of the document each time) into every short sink, against the Vec output
+fn sinks_sx<F: FnMut(&mut ShortSink) -> io::Result<()>>(vec_out: &[u8], mut save: F) -> Sx {
+    let mut parts = vec![];
+    for (name, kind) in SINKS {
+        let mut sink = ShortSink::new(kind);
+        parts.push(match save(&mut sink) {
+            Err(e) => Sx::tagged("sinkerr", vec![Sx::id(name), Sx::id(&format!("{:?}", e.kind()))]),
+            Ok(()) if sink.out == vec_out => Sx::tagged("same", vec![Sx::id(name)]),
+            Ok(()) => Sx::tagged("sinkdiff", vec![Sx::id(name), Sx::bytes(&sink.out)]),
+        });
+    }
+    Sx::tagged("sinks", parts)
+}
 
 fn stream_op(o: &mut Object, op: &Sx) -> Option<()> {
     let s = match o {
@@ -83,8 +183,8 @@ fn apply_edit(inc: &mut IncrementalDocument, e: &Sx) -> Option<()> {
     Some(())
 }
 
-fn rev_sx(file: &[u8], before: Sx, doc_after: &Document) -> Sx {
-    Sx::tagged("rev", vec![Sx::bytes(file), before, dict_to_sx(&doc_after.trailer)])
+fn rev_sx(file: &[u8], before: Sx, doc_after: &Document, sinks: Sx) -> Sx {
+    Sx::tagged("rev", vec![Sx::bytes(file), before, dict_to_sx(&doc_after.trailer), sinks])
 }
 
 fn main() {
@@ -105,6 +205,7 @@ fn main() {
         doc.reference_table.cross_reference_type =
             if stream { XrefType::CrossReferenceStream } else { XrefType::CrossReferenceTable };
         let before = doc_to_sx(&doc);
+        let pristine = doc.clone();
         let mut bytes: Vec<u8> = Vec::new();
         if let Err(e) = doc.save_to(&mut bytes) {
             return (
@@ -112,7 +213,8 @@ fn main() {
                 "skip".into(),
             );
         }
-        let mut revs = vec![rev_sx(&bytes, before, &doc)];
+        let sinks = sinks_sx(&bytes, |sink| pristine.clone().save_to(sink));
+        let mut revs = vec![rev_sx(&bytes, before, &doc, sinks)];
         if tag == "inc" {
             for (k, r) in a[3..].iter().enumerate() {
                 let mut inc = match IncrementalDocument::load_from(&bytes[..]) {
@@ -129,6 +231,7 @@ fn main() {
                     }
                 }
                 let before = doc_to_sx(&inc.new_document);
+                let pristine = inc.clone();
                 let mut out: Vec<u8> = Vec::new();
                 if let Err(e) = inc.save_to(&mut out) {
                     return (
@@ -136,7 +239,8 @@ fn main() {
                         "skip".into(),
                     );
                 }
-                revs.push(rev_sx(&out, before, &inc.new_document));
+                let sinks = sinks_sx(&out, |sink| pristine.clone().save_to(sink));
+                revs.push(rev_sx(&out, before, &inc.new_document, sinks));
                 bytes = out;
             }
         }
